@@ -18,6 +18,7 @@ R20.1 parent link <=> child list: mutators of `children` pair with `parent` writ
 is merged into a preceding Text node before a new node is created (append and append_before_sibling); R20.3 in a
 find-first loop the guarding condition depends on the loop's candidate; R20.4 reviewed normal forms of all of
 rcdom (36 functions).
+R20.5 order-preserving vector operations (MIR callees); reparent_children appends.
 """
 ASSUMPTIONS = ["Rc/Weak/RefCell/Vec behave as documented"]
 AREA = "rcdom"
